@@ -1417,13 +1417,66 @@ pub fn gen_program(t: &mut Tape, o: &GenOpts) -> Generated {
             } else {
             let victim = if g.t.chance(160) && eligible.contains(&0) { 0 } else { eligible[g.t.choose(eligible.len())] };
             let decls: Vec<Vec<ParamDecl>> = defs.iter().map(|d| d.params.clone()).collect();
-            let mutated = mutate_body(g.t, &defs[base + victim].body, &decls);
-            defs[base + victim].body = mutated;
-            // the copies are rooted like their originals
+            // A second kind of version: a field that IS a type parameter in the original is the concrete type the
+            // original is instantiated with in the copy ("the new release fixed the balance type"), and the copy is
+            // instantiated with other arguments. The two entries then share the field's type id, generic on one side only.
+            let vdef = group[victim];
+            let concrete: Option<(usize, Ty)> = roots.iter().find_map(|r| match r {
+                Ty::Def(d, args) if *d == vdef => defs[vdef].params.iter().enumerate().find_map(|(i, p)| {
+                    let plain = !p.skipped && !p.config && !p.compactable && !p.bitstore && !p.bitorder;
+                    let direct = defs[vdef].all_fields().iter().any(|f| f.ty == Ty::Param(i) && !f.compact_attr);
+                    (plain && direct).then(|| (i, args[i].clone()))
+                }),
+                _ => None,
+            });
+            let mut shifted: Option<usize> = None;
+            match concrete {
+                Some((i, arg)) if g.t.chance(90) => {
+                    g.labels.insert("version_with_parameter_made_concrete");
+                    let conv = |l: &mut Vec<FieldDef>| {
+                        for fd in l.iter_mut() {
+                            if fd.ty == Ty::Param(i) && !fd.compact_attr {
+                                fd.ty = arg.clone();
+                                break;
+                            }
+                        }
+                    };
+                    match &mut defs[base + victim].body {
+                        Body::Struct(Fields::Named(l)) | Body::Struct(Fields::Unnamed(l)) => conv(l),
+                        Body::Struct(Fields::Unit) => {}
+                        Body::Enum(vs) => {
+                            for v in vs.iter_mut() {
+                                if let Fields::Named(l) | Fields::Unnamed(l) = &mut v.fields {
+                                    if l.iter().any(|fd| fd.ty == Ty::Param(i) && !fd.compact_attr) {
+                                        conv(l);
+                                        break;
+                                    }
+                                }
+                            }
+                        }
+                    }
+                    shifted = Some(i);
+                }
+                _ => {
+                    let mutated = mutate_body(g.t, &defs[base + victim].body, &decls);
+                    defs[base + victim].body = mutated;
+                }
+            }
+            // the copies are rooted like their originals (the copy with a parameter made concrete with that argument
+            // wrapped in a Vec, so that the concrete field type does not coincide with an argument of the copy)
+            let vnew = base + victim;
             let more: Vec<Ty> = roots
                 .iter()
                 .filter(|r| matches!(r, Ty::Def(d, _) if map.contains_key(d)))
                 .map(|r| remap(r, &map))
+                .map(|r| match (r, shifted) {
+                    (Ty::Def(d, mut args), Some(i)) if d == vnew => {
+                        let a = args[i].clone();
+                        args[i] = Ty::Seq(SeqKind::Vec, Box::new(a));
+                        Ty::Def(d, args)
+                    }
+                    (r, _) => r,
+                })
                 .collect();
             for r in more {
                 if !roots.contains(&r) {
